@@ -2,7 +2,7 @@
 from .. import AnalysisBroken
 from ..rules import where_of
 from ..terms import head, is_const, show, strip, walk, get_arg
-from ..eff import check_pure_params
+from ..eff import check_no_dropping, check_pure_params
 from ._pcspec import M, check_against_spec, is_row_serializer, is_vec, sep_ok, vec_with_param0
 
 CLAIMED = True
@@ -43,6 +43,13 @@ def _rules(r, pre, purity):
             for e in s_cur.events_of("call"):
                 t = strip(e["term"])
                 f = strip(t[1])
+                if head(f) == "attr" and f[2] == "cat" and head(strip(f[1])) == "attr" and strip(f[1])[2] == "str":
+                    # library fact: Series.str.cat(others, sep=None) glues the columns together without a separator
+                    sep = dict(t[3]).get("sep")
+                    good = sep is not None and is_const(strip(sep)) and isinstance(strip(sep)[2], str) and strip(sep)[2] != ""
+                    rep.ob(pre + "C02-SER", q, good, "separator is a non-empty string (constant or defaulted parameter)", where_of(r.P, s_cur.func, e.node),
+                           expected="non-empty separator", found=f"str.cat(sep={show(sep, 20) if sep is not None else 'None'})", key="separator str.cat", lint=True)
+                    continue
                 if not (head(f) == "attr" and f[2] in ("value_counts", "groupby")):
                     continue
                 recv = f[1]
@@ -53,6 +60,7 @@ def _rules(r, pre, purity):
                     rep.ob(pre + "C02-NA", q, False, "rows with a missing cell take part in the count like any other row", where_of(r.P, s_cur.func, e.node),
                            expected="row-wise serialisation after fillna, or value_counts / groupby with dropna=False", found=show(t, 120), key=f"{f[2]} drops rows with missing cells", lint=True)
 
+    check_no_dropping(r, pre + "C02-NA", [M + "pc", M + "pc_joint", "pyrepseq.util.convert_tuple_to_dataframe_if_necessary"], "every element (row) of the sample takes part in the count")
     check_against_spec(r, pre + "C02-RF", "pc_n", "pc_n(n) == sum n_i(n_i - 1) / (N (N - 1))", vec=vec_with_param0)
     check_against_spec(r, pre + "C02-RF", "pc", "pc one-sample == coinciding ordered pairs / N(N-1); two-sample == coinciding cross pairs / (N1 N2); tables serialised row-wise", vec=is_vec)
     check_against_spec(r, pre + "C02-JOINT", "pc_joint", "pc_joint == pc of the row serialisation of the selected columns, same token for both tables", vec=is_vec)
@@ -102,6 +110,15 @@ def _rules(r, pre, purity):
             rep.ob(pre + "C02-SER", q, ax is not None and is_const(ax, 1), "serialiser is applied per row (axis=1)", w, expected="axis=1", found=show(ax) if ax else "axis omitted (column-wise)", key=f"axis #{n}")
         rep.require(n >= floor, f"{q}: {n} row-serialiser site(s) found, floor is {floor}")
     rep.floor(pre + "C02-SER", 9)
+
+
+def tuple_rule(r, pre=""):
+    """The legacy (alpha, beta) tuple converter alone (for properties that reach it but not pc)."""
+    from ..eff import check_no_dropping as _nd
+    _nd(r, pre + "C02-NA", ["pyrepseq.util.convert_tuple_to_dataframe_if_necessary"], "every element (row) of the sample takes part")
+    check_against_spec(r, pre + "C02-TUP", "convert_tuple_to_dataframe_if_necessary", "a 2-tuple becomes a (CDR3A, CDR3B) table built row-wise in tuple order, anything else is returned unchanged",
+                       modname="pyrepseq.util", qual="pyrepseq.util.convert_tuple_to_dataframe_if_necessary")
+    r.rep.floor(pre + "C02-TUP", 1)
 
 
 def value_rules(r, pre=""):
